@@ -23,7 +23,7 @@ for f in sorted(os.listdir(os.path.join(here, "mutants"))):
 for d in sorted(os.listdir(os.path.join(root, "seeded"))):
     p = os.path.join(root, "seeded", d, "patch.diff")
     if os.path.exists(p):
-        jobs.append((d, "seeded", "seeded/" + d, p))
+        jobs.append((d[:3], "seeded", "seeded/" + d, p))
 if only:
     jobs = [j for j in jobs if j[0].lower() == only]
 outp = os.path.join(root, "seeded", "KILLMATRIX.json")
